@@ -181,6 +181,8 @@ def run_case(ctx, case):
     d, lmin, lmax, boundary = case["d"], case["lmin"], case["lmax"], case["boundary"]
     a, b = case["a"], case["b"]
     tag = "bnd%s" % ("on" if boundary else "off")
+    if case.get("np_flag"):
+        tag += "-npflag"
     if case.get("kind") == "box-ulp":
         return run_box_ulp(ctx, case)
     restore = None
@@ -273,7 +275,9 @@ def run_standard(ctx, case, tag):
     with ctx.guard("B.total", S_PERF, tag + "-perform-raises"):
         with quiet():
             F = make_function(orc)
-            grid = TrapezoidalGrid(np.array(a), np.array(b), boundary=boundary)
+            # the flag as a numpy boolean (what `x < y` on numpy scalars or an entry of a flag array gives) must mean the same as the python bool
+            flag = np.bool_(boundary) if case.get("np_flag") else boundary
+            grid = TrapezoidalGrid(np.array(a), np.array(b), boundary=flag)
             op = Integration(F, grid=grid, dim=d)
             combi = StandardCombi(np.array(a), np.array(b), operation=op, print_output=False)
             scheme, _err, result = combi.perform_operation(lmin, lmax)
@@ -483,6 +487,9 @@ def run(ctx):
                         do_case(ctx, build_case(d, lmin, lmax, box, boundary))
     for d, lmin, lmax, box in ((1, 1, 2, 0), (2, 1, 3, 2), (3, 1, 2, 1)):
         do_case(ctx, build_case(d, lmin, lmax, box, False, kind="box-ulp"))
+    # boundary flag handed over as a numpy boolean
+    for d, lmin, lmax, box, bnd in ((1, 1, 3, 1, False), (2, 1, 3, 0, False), (2, 1, 2, 3, True), (3, 1, 2, 2, False)):
+        do_case(ctx, dict(build_case(d, lmin, lmax, box, bnd), np_flag=True))
     # history: other instances of the same (dim, lmin, lmax) were used and their scheme objects overwritten in place before this instance
     hist = [(1, 1, 3), (2, 1, 2), (2, 1, 3), (2, 2, 4), (3, 1, 2), (3, 1, 3), (3, 2, 3)]
     if not quick:
